@@ -86,8 +86,9 @@ LoadMissThenStore(prog, fin) ==
     /\ i < j /\ j - i <= 310
     /\ IsLoadAt(prog, fin, i) /\ IsStoreAt(prog, fin, j) /\ LineOf(fin.ev[i].a) = LineOf(fin.ev[j].a)
     /\ ~\E h \in 1 .. (i - 1) : IsLoadAt(prog, fin, h) /\ LineOf(fin.ev[h].a) = LineOf(fin.ev[i].a)
-    \* the store does not wait for that load: it reads no register the load writes
-    /\ (Reads(prog, fin, j) \cap Writes(prog, fin, i)) = {}
+    \* the store does not wait for the line: it reads no register written by a load of that line
+    /\ \A h \in i .. (j - 1) : (IsLoadAt(prog, fin, h) /\ LineOf(fin.ev[h].a) = LineOf(fin.ev[j].a))
+                                   => (Reads(prog, fin, j) \cap Writes(prog, fin, h)) = {}
 
 (* F10c (MVP-7.0 .. 8, >= 3 cores): the control unit tracks register hazards only;     *)
 (* two memory instructions on different cores are ordered by their latencies, not by   *)
